@@ -88,6 +88,7 @@ TPlain ==
             Ev.ret[k] = (IF k \in SeqToSet(Ev.keys) THEN Ev.pos[k] ELSE Ev.before[k]))
   /\ Chk("input_state_not_modified", Ev.after = Ev.before)
   /\ Chk("extract_returns_the_position", \A k \in SeqToSet(Ev.keys) : Ev.extracted[k] = Ev.pos[k])
+  /\ Chk("extract_returns_what_the_state_holds", Ev.extracted_all = Ev.before)
   /\ Chk("log_prob_reads_the_state", Ev.lp = Ev.expected_lp)
   /\ UNCHANGED pool /\ Same /\ Step
 
